@@ -5,7 +5,7 @@
    spec_holds is the property on the observation alone; the model (Model/TxnText.v printer and
    reader) is compared second. *)
 From Coq Require Import List NArith ZArith Bool.
-From Okv Require Import Model.Lit Model.SingleEntry2 Model.TxnText.
+From Okv Require Import Model.Lit Model.SingleEntry2 Model.TxnText Model.TxnTextSpec.
 Import ListNotations.
 Open Scope N_scope.
 
@@ -50,38 +50,6 @@ Fixpoint first_bad (p : precisions) (ts : list stxn) (items : list item) : optio
   | t :: r, ITxn u :: s => if same_txn p t u then first_bad p r s else Some t
   | t :: _, _ => Some t
   end.
-
-(* ---- known findings: text for which the ledger language has no escape syntax ---- *)
-Definition starts_with (x : N) (l : str) : bool := match l with c :: _ => c =? x | [] => false end.
-(* K0: a payee containing `;` (the rest of the line is read as a comment) *)
-Definition k_payee_semicolon (t : stxn) : bool := has_char 59 (tr_payee t).
-(* K1: a payee starting with `(` (read as a code up to the next `)`) *)
-Definition k_payee_paren (t : stxn) : bool := starts_with 40 (tr_payee t).
-(* K2: a code containing `)` *)
-Definition k_code_paren (t : stxn) : bool :=
-  match tr_code t with Some c => has_char 41 c | None => false end.
-(* K3: a comment whose text reads as `:tag:` or `key: value` metadata *)
-Definition comment_reads_as_meta (c : str) : bool :=
-  negb (has_char 13 c) && negb (has_char 10 c) &&
-  match read_meta (32 :: c) with Some (MComment _) => false | _ => true end.
-Definition k_comment_meta (t : stxn) : bool :=
-  existsb (fun m => match m with MComment c => comment_reads_as_meta c | _ => false end) (tr_meta t).
-(* K4: a commodity with a character outside the commodity alphabet *)
-Definition bad_commodity (a : samount) : bool := existsb non_commodity (sa_comm a).
-Definition k_commodity (t : stxn) : bool :=
-  existsb (fun p =>
-    (match sp_amount p with
-     | Some pa => bad_commodity (pa_amount pa) || match pa_cost pa with Some c => bad_commodity c | None => false end
-     | None => false end)
-    || match sp_balance p with Some b => bad_commodity b | None => false end) (tr_posts t).
-
-Definition known_class (t : stxn) : option N :=
-  if k_payee_semicolon t then Some 0
-  else if k_payee_paren t then Some 1
-  else if k_code_paren t then Some 2
-  else if k_comment_meta t then Some 3
-  else if k_commodity t then Some 4
-  else None.
 
 (* ---- comparison with the model ---- *)
 Definition pdec_eqb (a b : pdec) : bool :=
